@@ -221,11 +221,49 @@ void cmp_all(sink& out, int salt)
     cmp(out, rs, ls);
 }
 
+// representations that sit on, just below and just above a rounding tie of a p-bit significand (p = 24, 53, 64),
+// with the kept least significant bit both clear and set: the inputs on which a conversion that rounds twice
+// (or truncates) differs from the correctly rounded one
+template<class T>
+std::vector<T> near_tie_values()
+{
+    using I = innermost_t<T>;
+    std::vector<T> out;
+    int const D = cnl::digits_v<T>;
+    u128 const hi = static_cast<u128>(cnl::unwrap(std::numeric_limits<T>::max()));
+    for (int p : {24, 53, 64}) {
+        for (int top : {p + 1, p + 2, p + 5, p + 13, D - 1, D}) {
+            if (top <= p || top > D) {
+                continue;
+            }
+            u128 const base = static_cast<u128>(1) << (top - 1);
+            u128 const half = static_cast<u128>(1) << (top - p - 1);
+            for (int lsb = 0; lsb < 2; ++lsb) {
+                for (int delta = -1; delta <= 1; ++delta) {
+                    u128 v = base | (lsb ? (half << 1) : 0) | half;
+                    v = delta < 0 ? v - 1 : delta > 0 ? v + 1 : v;
+                    if (v > hi) {
+                        continue;
+                    }
+                    out.push_back(make<T>(false, v));
+                    if constexpr (is_signed_int<I>) {
+                        out.push_back(make<T>(true, v));
+                    }
+                }
+            }
+        }
+    }
+    return out;
+}
+
 template<class T>
 void single_all(sink& out, int salt)
 {
     int nr = thorough() ? 100 : 12;
     auto vs = number_values<T>(nr, static_cast<std::uint64_t>(salt) * 10 + 3, thorough() ? 2 : 1);
+    for (auto const& v : near_tie_values<T>()) {
+        vs.push_back(v);
+    }
     conv<T, float>(out, vs);
     conv<T, double>(out, vs);
     conv<T, long double>(out, vs);
